@@ -56,6 +56,8 @@ def genb(rng, prop, job):
 
 def gen(rng, prop, job):
     from . import m5_threads
+    if job.get("slow_child"):
+        return m5_threads.gen_slow_child(rng)
     if job.get("hook"):
         # a shutdown hook (`MAIN_THREAD.please_stop.then(...)`) that starts one more thread under the main thread: monitors only
         sc = m5_threads.gen_scenario(rng, prop)
@@ -70,6 +72,9 @@ def make_jobs(prop, tier, seed):
     if prop == "C12":
         for j in range(4 if tier == "quick" else 24):
             jobs.append({"kind": "explore", "side": "batch", "prop": prop, "seed": seed * 15485863 + j, "scenarios": 8, "schedules": 4, "no_driver": True})
+    if prop == "C10":
+        for j in range(1 if tier == "quick" else 4):
+            jobs.append({"kind": "explore", "slow_child": True, "prop": prop, "seed": seed * 9576890767 + j, "scenarios": 1, "schedules": 1})
     if prop == "C11":
         for j in range(2 if tier == "quick" else 12):
             jobs.append({"kind": "explore", "hook": True, "prop": prop, "seed": seed * 86028157 + j, "scenarios": 8, "schedules": 4, "no_driver": True})
